@@ -41,6 +41,7 @@ func registeringFns(c *Ctx, ro *roles) map[*ssa.Function]bool {
 func checkC14(c *Ctx, r *Report, tier string) {
 	round5(c, r, "C14")
 	round6(c, r, "C14")
+	round7(c, r, "C14")
 	r.Rule("C14.R1", "consumers are registered before the group starts: in a function that calls Start() on a raft group, no call that registers a log consumer on that group (directly, on a shared group built over it, or on a proxy obtained from it) is reachable after the Start call", 2)
 	r.Rule("C14.R2", "deterministic catalogue apply: no randomness / time / fresh-uuid source is reachable from the catalogue's apply roots (ids and placement are chosen by the proposer and travel in the entry)", 1)
 	r.Rule("C14.R3", "the catalogue snapshot covers what apply writes and restore replaces it (frozen table: DatasetManager.datasets, pb.Partition.NodeIds)", 2)
@@ -266,6 +267,7 @@ func checkC14(c *Ctx, r *Report, tier string) {
 func checkC20(c *Ctx, r *Report, tier string) {
 	round5(c, r, "C20")
 	round6(c, r, "C20")
+	round7(c, r, "C20")
 	r.Rule("C20.R1", "who may write the address book: Conn.AddNode / RemoveNode are called only by the transport constructor (self), by the join handshake's reply loop, and by the ConfChange handler under the zero-group test", 3)
 	r.Rule("C20.R5", "the address book cannot be written through an alias and a compaction snapshot never forgets the membership: Conn hands out copies of its address map; the WAL writes a snapshot only with a non-nil ConfState", 2)
 	guardedMapNotHandedOut(c, r, "C20.R5", "cluster", "Conn", "addresses")
